@@ -426,3 +426,14 @@ class FunctorSymClone(Contract):
     return dict(outcome='reproduced' if bad else 'not-reproduced',
                 detail=f'_f(1, override_args={f._override_args}, ignore_extra_args={f._ignore_extra_args})'
                        f'.clone(deep={bool(m.get("deep"))}): ' + ('; '.join(bad) or 'state carried over'))
+
+
+# DNA._sym_clone (spec, clone-able user data / metadata, sealed state of the
+# copy) is under contract in contracts/c12_dna_views.py; it is an obligation of
+# clone fidelity as well.
+from contracts.c12_dna_views import DnaSymClone as _DnaSymClone   # noqa: E402  pylint: disable=wrong-import-position
+
+
+@register
+class DnaCloneFidelity(_DnaSymClone):
+  prop = 'C07'
